@@ -199,6 +199,8 @@ def known_matcher(fnd, case):
     k = fnd.get('match', {}).get('kind')
     if k == 'newline-flag-heuristic':
         return case.get('clause', '').endswith('@newline-flag')
+    if k == 'token-through-expand1':
+        return case.get('clause', '').endswith('@token-through-expand1')
     return False
 
 
